@@ -113,6 +113,18 @@ def shrink(mod, case, fails):
     return cur
 
 
+def _log_view(mod, case, o):
+    """canonical text of the observables that must not depend on the logging level (None: nothing is claimed)"""
+    if hasattr(mod, "log_invariant_view"):
+        o = mod.log_invariant_view(case, o)
+        if o is None:
+            return None
+    elif isinstance(o, dict):
+        ign = set(getattr(mod, "LOG_VARIANT_IGNORE", ())) | {"alt"}
+        o = {k: v for k, v in o.items() if k not in ign}
+    return json.dumps(o, sort_keys=True, default=str)
+
+
 def main():
     ap = argparse.ArgumentParser()
     ap.add_argument("cmd", choices=["check"])
@@ -174,16 +186,54 @@ def main():
         for o, ao in zip(obs, aobs):
             if o is not None:
                 o.setdefault("alt", []).append(ao)
+    # behaviour must not depend on the logging level: a sample of the cases again with every logger at DEBUG and a handler
+    # that formats each record; the observables must be the same (opt-in per property: deterministic drivers only)
+    dbg_obs = {}
+    if getattr(mod, "LOG_LEVEL_INVARIANT", False):
+        stride = max(1, len(cases) // int(getattr(mod, "LOG_SAMPLE", 300)))
+        pick = [i for i in range(len(cases)) if i % stride == 0 and obs[i] is not None]
+        dobs, dre = run_driver(mod, [cases[i] for i in pick], pid + "_dbg", extra_env={"VERIF_LOG_DEBUG": "1"})
+        derrs += ["(logging at DEBUG) " + e for e in dre]
+        dbg_obs = {i: o for i, o in zip(pick, dobs) if o is not None}
     if derrs:
         notes.append("driver errors: " + " | ".join(derrs)[:3000])
 
     # ---- 6. direct predicate (search for a failing input on the real code) ------------------
     direct_fail = []   # (idx, sig, msg)
+    log_suspects = []
     for i, (c, o) in enumerate(zip(cases, obs)):
         if o is None:
             continue
         for sig, msg in mod.direct(c, o):
             direct_fail.append((i, sig, msg))
+        if i in dbg_obs:
+            # (a) the property's own predicate on the run made with logging at DEBUG
+            base_sigs = {sg for (j, sg, _) in direct_fail if j == i}
+            for sig, msg in mod.direct(c, dbg_obs[i]):
+                if sig not in base_sigs:
+                    direct_fail.append((i, sig, "[with every logger at DEBUG and every record formatted] " + msg))
+            # (b) for drivers whose observables are the same from run to run: the observables themselves
+            if getattr(mod, "LOG_EXACT", True):
+                a_, b_ = _log_view(mod, c, o), _log_view(mod, c, dbg_obs[i])
+                if a_ is not None and b_ is not None and a_ != b_:
+                    log_suspects.append(i)
+    if log_suspects:
+        # confirm: the difference must reproduce (same observables again without DEBUG, same again with DEBUG) - a driver
+        # whose observables vary from run to run for other reasons says nothing about the logging level
+        sus = log_suspects[:40]
+        again, _ = run_driver(mod, [cases[i] for i in sus], pid + "_dbg2", shards=1)
+        dagain, _ = run_driver(mod, [cases[i] for i in sus], pid + "_dbg3", shards=1, extra_env={"VERIF_LOG_DEBUG": "1"})
+        for i, n2, d2 in zip(sus, again, dagain):
+            if n2 is None or d2 is None:
+                continue
+            a_, b_ = _log_view(mod, cases[i], obs[i]), _log_view(mod, cases[i], dbg_obs[i])
+            if _log_view(mod, cases[i], n2) == a_ and _log_view(mod, cases[i], d2) == b_:
+                ja, jb = json.loads(a_), json.loads(b_)
+                keys = sorted(k for k in set(ja) | set(jb) if ja.get(k) != jb.get(k)) if isinstance(ja, dict) and isinstance(jb, dict) else []
+                direct_fail.append((i, "depends-on-logging-level", "the same case behaves differently when logging is switched to "
+                                    "DEBUG (every record formatted): observables %s differ; with DEBUG: %s" %
+                                    (keys[:5], json.dumps({k: jb.get(k) for k in keys[:2]}, default=str)[:300]
+                                     if keys else b_[:300])))
 
     # ---- 5. model run (correspondence) -------------------------------------------------------
     bad, cerrs, coq_s = [], [], 0.0
